@@ -87,10 +87,13 @@ def generate(seed: int, tier: str = "quick", index=None) -> dict:
     spans = sched.spans_of(frames)
     wire_len = spans[-1][1] if spans else 0
     roll = r_sch.random()
-    if roll < 0.45:
+    cfg["drive"] = r_sch.choice(("iter", "read"))
+    if roll < 0.38:
         tr = {"kind": "file"}
+    elif roll < 0.45:
+        tr = {"kind": "capfile", "cap": r_sch.choice((1, 2, 3, 7, 16, 20, 64))}
     elif roll < 0.75:
-        tr = common.draw_transport(r_sch, wire_len, spans, kinds=("socket",), ends=("close", "timeout", "reset"))
+        tr = common.draw_transport(r_sch, wire_len, spans, kinds=("socket",), ends=("close", "timeout", "reset", "ehostunreach", "ebadf", "enotconn"))
         cfg["bufsize"] = r_sch.choice(sched.BUFSIZES)
     elif roll < 0.87:
         sizes = sched.random_segments(r_sch, wire_len, spans)
@@ -151,10 +154,21 @@ def _judge_reader(scn, res=None):
     try:
         with StepMeter(LOOP_BUDGET):
             ubr = UBXReader(tp, **kw)
-            for raw, parsed in ubr:
-                items.append((raw, parsed))
-                if len(items) > len(wire) + 16:
-                    raise SimBudgetExceeded("more items than bytes")
+            if cfg.get("drive") == "read":
+                # call read() directly: nothing but a protocol error may come out of it, and a
+                # StopIteration leaking from below is an exception like any other here
+                while True:
+                    raw, parsed = ubr.read()
+                    if raw is None and parsed is None:
+                        break
+                    items.append((raw, parsed))
+                    if len(items) > len(wire) + 16:
+                        raise SimBudgetExceeded("more items than bytes")
+            else:
+                for raw, parsed in ubr:
+                    items.append((raw, parsed))
+                    if len(items) > len(wire) + 16:
+                        raise SimBudgetExceeded("more items than bytes")
     except SimBudgetExceeded as err:
         verdict = ("hang", f"{err}", "hang")
     except Exception as err:  # pylint: disable=broad-except
@@ -178,6 +192,11 @@ def _judge_reader(scn, res=None):
         c = res.counters
         c.hit(f"policy_{cfg.get('quitonerror')}")
         c.hit(scn["transport"]["kind"] + "_runs")
+        c.hit("drive_" + str(cfg.get("drive")))
+        if scn["transport"]["kind"] == "socket":
+            c.hit("socket_end_" + str(scn["transport"].get("end")))
+        if scn["transport"]["kind"] == "capfile":
+            c.hit("fault_capped_read", tp.capped_reads)
         if scn["transport"].get("stress") == "stall":
             c.hit("stall_runs")
             c.hit("fault_stall", getattr(tp, "midstream_timeouts", 0))
